@@ -145,8 +145,40 @@ type mdBaseNotMap struct {
 	Properties string
 }
 
+// defined types whose KIND is string / map but whose type is not: conversions decided on the kind panic on them
+type (
+	mdNamedStr  string
+	mdNamedMapV map[string]mdNamedStr
+)
+type mdBaseNamedVal struct {
+	Properties map[string]mdNamedStr
+}
+type mdBaseNamedKey struct {
+	Properties map[mdNamedStr]string
+}
+type mdBaseNamedBoth struct {
+	Properties map[mdNamedStr]mdNamedStr
+}
+type mdBaseNamedMapV struct {
+	Properties mdNamedMapV
+}
+type mdBaseIface struct {
+	Properties any
+}
+type mdBasePtrMap struct {
+	Properties *map[string]string
+}
+type mdBaseIntMap struct {
+	Properties map[string]int
+}
+type mdBaseBytesMap struct {
+	Properties map[string][]byte
+}
+
 var mdContainers = []string{"map[string]string", "map[string]string", "map[string]string", "metadata.Properties", "Properties.Decode", "map[string]any", "map[any]any", "struct{Properties map[string]string}",
-	"*struct{Properties map[string]string}", "struct{Properties metadata.Properties}", "struct{Properties map[string]any}", "struct{Properties string}", "json-string", "nil", "nil-map", "int", "[]string"}
+	"*struct{Properties map[string]string}", "struct{Properties metadata.Properties}", "struct{Properties map[string]any}", "struct{Properties string}", "json-string", "nil", "nil-map", "int", "[]string",
+	"struct{Properties map[string]Named}", "struct{Properties map[Named]string}", "struct{Properties map[Named]Named}", "struct{Properties NamedMap}", "struct{Properties any}", "struct{Properties *map}",
+	"struct{Properties map[string]int}", "struct{Properties map[string][]byte}", "map[string]Named", "map[Named]string"}
 
 var mdTargets = []string{"*T", "*T", "*T", "*T", "**T", "*small", "T", "*int", "*map", "*[]T"}
 
@@ -194,6 +226,49 @@ func (c mdCase) input() any {
 		return mdBaseNamed{Properties: props}
 	case "struct{Properties map[string]any}":
 		return mdBaseAny{Properties: anyMap()}
+	case "struct{Properties map[string]Named}", "struct{Properties map[Named]string}", "struct{Properties map[Named]Named}", "struct{Properties NamedMap}", "map[string]Named", "map[Named]string":
+		nv, nk, nb := map[string]mdNamedStr{}, map[mdNamedStr]string{}, map[mdNamedStr]mdNamedStr{}
+		for k, v := range props {
+			nv[k], nk[mdNamedStr(k)], nb[mdNamedStr(k)] = mdNamedStr(v), v, mdNamedStr(v)
+		}
+		if c.Extra&1 == 1 { // nil maps of these types
+			nv, nk, nb = nil, nil, nil
+		}
+		switch c.Container {
+		case "struct{Properties map[string]Named}":
+			return mdBaseNamedVal{Properties: nv}
+		case "struct{Properties map[Named]string}":
+			return mdBaseNamedKey{Properties: nk}
+		case "struct{Properties map[Named]Named}":
+			return mdBaseNamedBoth{Properties: nb}
+		case "struct{Properties NamedMap}":
+			return mdBaseNamedMapV{Properties: mdNamedMapV(nv)}
+		case "map[string]Named":
+			return nv
+		}
+		return nk
+	case "struct{Properties any}":
+		if c.Extra&1 == 1 {
+			return mdBaseIface{Properties: nil}
+		}
+		return mdBaseIface{Properties: props}
+	case "struct{Properties *map}":
+		if c.Extra&1 == 1 {
+			return mdBasePtrMap{Properties: nil}
+		}
+		return mdBasePtrMap{Properties: &props}
+	case "struct{Properties map[string]int}":
+		m := map[string]int{}
+		for k, v := range props {
+			m[k] = len(v)
+		}
+		return mdBaseIntMap{Properties: m}
+	case "struct{Properties map[string][]byte}":
+		m := map[string][]byte{}
+		for k, v := range props {
+			m[k] = []byte(v)
+		}
+		return mdBaseBytesMap{Properties: m}
 	case "struct{Properties string}":
 		return mdBaseNotMap{Properties: "x"}
 	case "json-string":
